@@ -1,12 +1,14 @@
 SPECIFICATION Spec
 CONSTANTS
   P = 5
-  MaxN = 4
-  MaxT = 4
+  MaxN = 3
+  MaxT = 3
   CoefVals = {0, 1, 2, 3, 4}
-  MsgVals = {1, 2}
+  MsgVals = {1, 2, 3, 4}
   Kinds = {"ok", "bad", "wrongmsg", "other", "stale"}
-  MaxArrivals = 4
+  MaxArrivals = 6
   MaxPerParty = 2
+  MaxInvalid = 6
+VIEW MCView
 INVARIANTS TypeOK C33_Cap C33_OnlyValidStored C33_SeedIffThreshold C33_SeedFunction
 CHECK_DEADLOCK FALSE
